@@ -105,3 +105,151 @@ def run(chk, A):
                    detail="class %s encodes %s with runs of %d registers but its case never calls check_consecutive with %d operands" % (
                        cls, sorted(nm for nm in nms if n in run_len.get(nm, set()))[:4], n, n), key="consecutive|a64|%s|%d" % (cls.replace("kEncoding", ""), n))
     chk.floor(R2 + ":obligations", nrun, 6)
+
+
+def core_load(rel):
+    from . import core
+    return core.load_json(rel)
+
+
+def field_mask(e):
+    m = 0
+    for parts in e["fields"].values():
+        for p in parts:
+            m |= ((1 << p["size"]) - 1) << p["index"]
+    return m & 0xFFFFFFFF
+
+
+def run_opcodes(chk, A):
+    """C02.d — stored opcode constants vs the database templates (thorough tier)."""
+    import re as _re
+    emit, regions, dbf = A["emit"], A["regions"], A["db"]
+    db = load_db(chk)
+    R = "R-OPCODE-TEMPLATE"
+    chk.rule(R, "for every instruction row and every `opcode.reset(<EncodingData field> << k)` of its class: the stored constant sets no bit that "
+                "every candidate database template of the mnemonic fixes to 0 (some non-SVE form has no conflict with the fixed bits)")
+    T = dbf["tables"]
+    rows = T["asmjit::a64::InstDB::_inst_info_table"]["value"]
+    f2 = chk.facts("asmjit/arm/a64instdb.cpp", tables=r"asmjit::a64::InstDB::(_inst_name_string_table|_inst_name_index_table)$")
+    strtab = f2["tables"]["asmjit::a64::InstDB::_inst_name_string_table"]["value"]
+    names = [nametables.decode(v, strtab) for v in f2["tables"]["asmjit::a64::InstDB::_inst_name_index_table"]["value"]]
+    enc_name = {v: n for n, v in dbf["enums"]["asmjit::a64::InstDB::EncodingId"]["enumerators"]}
+    by_name = {}
+    for e in db:
+        if not is_sve(e):
+            by_name.setdefault(e["name"], []).append(e)
+    # accessor shapes: EncodingData::X::opcode() { return uint32_t(_opcode) << 10; }
+    fa = chk.facts("asmjit/arm/a64assembler.cpp", funcs=r"a64::InstDB::EncodingData::[A-Za-z0-9_]+::[a-zA-Z_0-9]+$")
+    from . import cfg as _cfg
+    acc = {}
+    for fn in _cfg.load_functions(fa):
+        rets = list(fn.return_sites())
+        if len(rets) != 1:
+            continue
+        sh = shape(fn, fn.e(rets[0][2]).get("val"))
+        if sh:
+            acc[fn.name.replace("asmjit::a64::InstDB::EncodingData::", "")] = sh
+    # case -> array (struct) used
+    arr_of_case = {}
+    for i, x in emit.ex.items():
+        if x["k"] == "subscript":
+            idx = emit.e(emit.strip(x["idx"]))
+            base = emit.e(emit.strip(x["base"]))
+            if idx and idx["k"] == "ref" and idx.get("name") == "encoding_index" and base and base["k"] == "ref" and base.get("dk") == "global":
+                for reg in regions.group_of_line(x["l"]):
+                    arr_of_case[reg] = base["qn"]
+    sites = {}
+    for i, x in emit.calls(lambda x: x.get("cn") == "reset" and x["k"] == "mcall" and "Opcode" in x.get("cls", "")):
+        sh = shape(emit, x["args"][0])
+        if not sh:
+            continue
+        for reg in regions.group_of_line(x["l"]):
+            if reg.startswith("case:"):
+                sites.setdefault(reg[5:], set()).add(sh)
+    n = 0
+    recs = []
+    aliases = core_load("rules/a64_opcode_aliases.json")["aliases"]
+    stats = {"rows": 0, "constants": 0, "skipped_zero": 0}
+    for rid in range(1, len(rows)):
+        cls = enc_name.get(rows[rid]["_encoding"], "?")
+        arr = arr_of_case.get("case:" + cls)
+        if not arr or arr not in T:
+            continue
+        data = T[arr]["value"][rows[rid]["_encoding_data_index"]]
+        sname = T[arr]["ty"].split("::")[-1].split("[")[0]
+        forms = by_name.get(names[rid], [])
+        if not forms:
+            continue
+        stats["rows"] += 1
+        for (fld, k, via) in sorted(sites.get(cls, ())):
+            f, kk = fld, k
+            if via == "accessor":
+                a = acc.get("%s::%s" % (sname, fld))
+                if not a:
+                    continue
+                f, kk = a[0], a[1] + k
+            if f not in data:
+                continue
+            S = (data[f] << kk) & 0xFFFFFFFF
+            if S == 0:
+                stats["skipped_zero"] += 1
+                continue
+            stats["constants"] += 1
+            best = None
+            al = aliases.get("%s|%s.%s" % (names[rid], sname, f))
+            cand = by_name.get(al["use"], []) if al else forms
+            for e in cand:
+                M = (~field_mask(e)) & 0xFFFFFFFF
+                V = e["opv"] & 0xFFFFFFFF
+                conflict = bin(S & M & ~V & 0xFFFFFFFF).count("1")
+                if best is None or conflict < best[0]:
+                    best = (conflict, e["op"])
+            bf = [e for e in cand if bin(S & ((~field_mask(e)) & 0xFFFFFFFF) & ~(e["opv"] & 0xFFFFFFFF) & 0xFFFFFFFF).count("1") == 0]
+            missing = min(bin((e["opv"] & 0xFFFFFFFF) & ((~field_mask(e)) & 0xFFFFFFFF) & ~S).count("1") for e in bf) if bf else None
+            recs.append((cls, sname, f, names[rid], missing, S))
+            n += 1
+            chk.ob(R, "row:%s|%s.%s" % (names[rid] if True else rid, sname, f), best[0] == 0, loc="asmjit/arm/a64instdb.cpp",
+                   detail="`%s`: stored %s.%s << %d = %08X sets %d bit(s) that the closest database template (%s) fixes to 0" % (names[rid], sname, f, kk, S, best[0], best[1]),
+                   key="a64opcode|%s|%s.%s" % (names[rid], sname, f))
+    chk.floor(R + ":constants", n, 600)
+    chk.extra["a64_opcode_template"] = stats
+    # complete constants: classes whose case only ORs operand fields into the stored word (frozen list, confirmed on the pinned tree):
+    # the stored constant must contain every bit that the matching template fixes to 1
+    R2 = "R-OPCODE-COMPLETE"
+    chk.rule(R2, "for the encoding classes whose case adds only operand fields to the stored opcode (frozen list in rules/a64_opcode_full.json), "
+                 "the stored constant contains every bit that a conflict-free database template of the mnemonic fixes to 1")
+    full = set(core_load("rules/a64_opcode_full.json")["complete"])
+    m = 0
+    for (cls, sname, f, nm, missing, S) in recs:
+        if "%s|%s.%s" % (cls, sname, f) in full and missing is not None:
+            m += 1
+            chk.ob(R2, "row:%s|%s.%s" % (nm, sname, f), missing == 0, loc="asmjit/arm/a64instdb.cpp",
+                   detail="`%s`: stored %s.%s = %08X lacks %d bit(s) that its database template fixes to 1" % (nm, sname, f, S, missing),
+                   key="a64opcodefull|%s|%s.%s" % (nm, sname, f))
+    chk.floor(R2 + ":constants", m, 400)
+    chk.extra["a64_opcode_records"] = len(recs)
+    return recs
+
+
+def shape(fn, eid):
+    """Recognise `uint32_t(op_data.F) << k`, `op_data.F`, `op_data.F()`, `uint32_t(_F) << k` (inside accessors).
+    Returns (field, shift, via) or None."""
+    x = fn.e(fn.strip(eid)) if eid else None
+    if x is None:
+        return None
+    k = 0
+    if x["k"] == "binop" and x["op"] == "<<":
+        r = fn.e(fn.strip(x["rhs"]))
+        if r is None or "cv" not in r:
+            return None
+        k = r["cv"]
+        x = fn.e(fn.strip(x["lhs"]))
+        if x is None:
+            return None
+    if x["k"] == "member" and not x.get("method"):
+        return (x["field"], k, "field")
+    if x["k"] == "mcall" and not x.get("args") and x.get("obj"):
+        o = fn.e(fn.strip(x["obj"]))
+        if o and o["k"] == "ref" and o.get("name") == "op_data":
+            return (x["cn"], k, "accessor")
+    return None
